@@ -29,6 +29,7 @@ type Solver struct {
 	out      *bufio.Reader
 	named    map[*Term]string // terms with a define-fun
 	declared map[*Term]bool   // variables declared
+	funcs    map[string]bool
 	nDefs    int
 	level    int
 	Queries  int
@@ -39,6 +40,8 @@ type Solver struct {
 	log      io.Writer
 	uses     int
 	lastAssert *Term
+	ValueTime time.Duration
+	SendTime time.Duration
 }
 
 // SolverKind: "z3", "z3-new", "cvc5"
@@ -75,6 +78,7 @@ func (s *Solver) start() error {
 	s.cmd, s.in, s.out = cmd, in, bufio.NewReaderSize(out, 1<<16)
 	s.named = map[*Term]string{}
 	s.declared = map[*Term]bool{}
+	s.funcs = map[string]bool{}
 	s.nDefs = 0
 	s.level = 0
 	s.uses = 0
@@ -110,8 +114,10 @@ func (s *Solver) send(line string) {
 	if s.log != nil {
 		fmt.Fprintln(s.log, line)
 	}
+	st := time.Now()
 	io.WriteString(s.in, line)
 	io.WriteString(s.in, "\n")
+	s.SendTime += time.Since(st)
 }
 
 func (s *Solver) readLine() string {
@@ -154,6 +160,13 @@ func (s *Solver) prepare(root *Term) {
 		}
 		if _, ok := s.named[t]; ok {
 			continue
+		}
+		if t.Op == OpUF {
+			key := fmt.Sprintf("%s/%d/%d", t.Name, t.Args[0].W, t.W)
+			if !s.funcs[key] {
+				s.funcs[key] = true
+				s.send(fmt.Sprintf("(declare-fun %s (%s) %s)", smtName(t.Name), sortStr(t.Args[0].W), sortStr(t.W)))
+			}
 		}
 		if !it.done {
 			stack = append(stack, item{t, true})
@@ -240,6 +253,8 @@ func (s *Solver) Value(t *Term) (*big.Int, bool) {
 	if t.Op == OpConst {
 		return new(big.Int).SetUint64(t.Val), true
 	}
+	vstart := time.Now()
+	defer func() { s.ValueTime += time.Since(vstart) }()
 	r := s.ref(t)
 	s.send("(get-value (" + r + "))")
 	// response: ((<expr> <value>)) possibly spanning lines
